@@ -417,7 +417,12 @@ class Trace:
             tr.lose(make_exc(a[1]))
             return "lost:" + (a[1] or "none")
         if k == "wfail":
-            self.net.write_raises = OSError("write failed") if a[1] else None
+            # what a dead transport raises from write(): OSError, or RuntimeError (uvloop's closed handle, asyncio's write after
+            # write_eof), or the reset subclass; the kind rotates deterministically so that the stories meet all of them
+            self.wfail_count = getattr(self, "wfail_count", 0) + (1 if a[1] else 0)
+            kinds = [OSError("write failed"), RuntimeError("unable to perform operation on <TCPTransport closed=True>; the handler is closed"),
+                     ConnectionResetError("reset")]
+            self.net.write_raises = kinds[(self.wfail_count + len(self.steps)) % 3] if a[1] else None
             for tr in self.net.transports:
                 tr.write_raises = self.net.write_raises
             return f"wfail:{int(a[1])}"
